@@ -4,15 +4,20 @@ package props
 
 import (
 	"crypto"
+	"crypto/rand"
 	"crypto/sha256"
+	"crypto/x509"
+	"crypto/x509/pkix"
 	"encoding/json"
 	"fmt"
+	"math/big"
 	"os"
 	"os/exec"
 	"runtime/debug"
 	"sort"
 	"strconv"
 	"strings"
+	"sync/atomic"
 	"time"
 
 	"github.com/foxboron/go-uefi/authenticode"
@@ -23,6 +28,7 @@ import (
 	"verif/internal/hx"
 	"verif/keys"
 	"verif/ref/refesl"
+	"verif/ref/refpe"
 	"verif/shim/deepdump"
 	"verif/shim/sched"
 	bytes "verif/shim/vbytes"
@@ -46,6 +52,10 @@ type c19Subject struct {
 
 // sum summarises a result and then overwrites it (and its spare capacity): what an operation
 // returns belongs to the caller; if it is the object's own storage, the next call shows it.
+// c19ShortLived is the certificate of the "expires while the clock advances" subject (the bytes
+// differ from build to build only in nothing: RSA PKCS#1 v1.5 and the fixed instant make it stable).
+var c19ShortLived atomic.Pointer[x509.Certificate]
+
 func sum(b []byte) string {
 	h := sha256.Sum256(b)
 	s := fmt.Sprintf("len=%d sha256=%x", len(b), h[:12])
@@ -180,6 +190,52 @@ func c19Subjects() []c19Subject {
 		// a descriptor as decoded from a file whose timestamp field is all zero, under a clock that
 		// advances with every reading: a read-only operation that consults the clock (to "fill in" a
 		// missing time, say) gives another result on every call
+		// a descriptor signed by a certificate whose validity period ends two seconds into the advancing
+		// clock: verification is a statement about the bytes, not about the time of the call
+		{"authentication descriptor signed by a certificate that expires while the clock advances", func() any {
+			t0 := time.Date(2024, 5, 6, 7, 8, 9, 0, time.UTC)
+			vtime.Set(t0)
+			tmpl := &x509.Certificate{SerialNumber: big.NewInt(0x7601), Subject: pkix.Name{CommonName: "verif short-lived"}, NotBefore: t0.Add(-time.Hour), NotAfter: t0.Add(2 * time.Second),
+				KeyUsage: x509.KeyUsageDigitalSignature, BasicConstraintsValid: true, SignatureAlgorithm: x509.SHA256WithRSA}
+			cd, err := x509.CreateCertificate(rand.Reader, tmpl, tmpl, &keys.K(3).PublicKey, keys.K(3))
+			if err != nil {
+				panic(err)
+			}
+			sc, _ := x509.ParseCertificate(cd)
+			c19ShortLived.Store(sc)
+			db, _ := signature.ReadSignatureDatabase(bytes.NewReader(dbBytes))
+			a, _, err := signature.SignEFIVariable(efivar.Db, &db, keys.K(3), sc)
+			if err != nil {
+				panic(err)
+			}
+			vtime.SetStepping(t0, time.Second)
+			return a
+		}, func(o any) string { return deepdump.Dump(o) }, append(append([]c19Op{}, descOps...), c19Op{"Verify(the short-lived certificate)", func(o any) string {
+			ok, err := o.(*signature.EFIVariableAuthentication2).Verify(c19ShortLived.Load())
+			return fmt.Sprint(ok, err)
+		}})},
+		// an image whose certificate table holds entries that fail for different reasons (an unparsable
+		// blob, a signature over another image): the error of a failed verification is part of the result
+		{"image with an unparsable and a stale table entry", func() any {
+			other := pegen.Build(pegen.Layout{PE32Plus: true, Lfanew: 0x40, Secs: []pegen.Sec{{RawSize: 21}}, Trailing: 2})
+			op, err := authenticode.Parse(bytes.NewReader(other))
+			if err != nil {
+				panic(err)
+			}
+			stale, err := op.Sign(keys.K(1), keys.C(1))
+			if err != nil {
+				panic(err)
+			}
+			img, err := refpe.Attach(c19Image(), fill(60, 0x37), stale, fill(9, 0x30))
+			if err != nil {
+				panic(err)
+			}
+			p, err := authenticode.Parse(bytes.NewReader(img))
+			if err != nil {
+				panic(err)
+			}
+			return p
+		}, func(o any) string { return authenticode.VerifDump(o.(*authenticode.PECOFFBinary)) }, imgOps},
 		{"authentication descriptor decoded with an all-zero timestamp, advancing clock", func() any {
 			vtime.Set(time.Date(2024, 5, 6, 7, 8, 9, 0, time.UTC))
 			db, _ := signature.ReadSignatureDatabase(bytes.NewReader(dbBytes))
@@ -293,6 +349,10 @@ type c19Exec struct {
 	writes   []string // write-kind accesses to shared objects
 	blocked  bool
 	panics   []string
+	// diverged: replaying the recorded prefix met a scheduling point with fewer enabled threads than
+	// recorded: the code under test does not issue the same sequence of shared accesses when it is
+	// run again under the same schedule (map order, clock, randomness inside the library)
+	diverged bool
 }
 
 type c19Event struct {
@@ -365,7 +425,8 @@ func c19RunOnce(sub *c19Subject, plan [][]int, prefix []int) *c19Exec {
 		if len(x.points) < len(prefix) {
 			ch = prefix[len(x.points)]
 			if ch >= len(en) {
-				panic(fmt.Sprintf("schedule replay diverged: choice %d of %d at point %d", ch, len(en), len(x.points)))
+				x.diverged = true
+				ch = 0
 			}
 		}
 		pt.chosen = ch
@@ -446,6 +507,16 @@ func (e *c19Explorer) explore(prefix []int) {
 	e.c.Count("transitions", uint64(len(x.points)))
 	e.c.Count("traces", 1)
 	e.check(x)
+	if x.diverged {
+		// results of this execution were judged like any other; the subtree below a prefix that does
+		// not replay cannot be enumerated, so the harness is reported as not exhaustively explored
+		e.c.Outcome("schedule-did-not-replay(code under test is not deterministic under a fixed schedule)")
+		if !e.capped {
+			e.c.Note("%s: an execution did not replay under its own schedule prefix; this plan is reported as not exhaustively explored", e.planName())
+		}
+		e.capped = true
+		return
+	}
 	for i := len(prefix); i < len(x.points); i++ {
 		p := x.points[i]
 		for alt := 1; alt < len(p.enabled); alt++ {
@@ -547,8 +618,14 @@ func c19Units(tier string) []string {
 	var u []string
 	for si, s := range c19Subjects() {
 		u = append(u, fmt.Sprintf("seq#%d", si))
+		// subjects added for one specific hazard each (clock-dependent or hand-built values): in the
+		// quick tier their interleavings are explored for two threads x one operation only
+		light := tier != "thorough" && (strings.Contains(s.name, "advancing clock") || strings.Contains(s.name, "clock advances") || strings.Contains(s.name, "hand-built") || strings.Contains(s.name, "unparsable"))
 		for k := 0; k < len(s.ops); k++ {
-			u = append(u, fmt.Sprintf("sched2x1#%d#%d", si, k), fmt.Sprintf("sched2x2#%d#%d", si, k), fmt.Sprintf("sched3x1#%d#%d", si, k))
+			u = append(u, fmt.Sprintf("sched2x1#%d#%d", si, k))
+			if !light {
+				u = append(u, fmt.Sprintf("sched2x2#%d#%d", si, k), fmt.Sprintf("sched3x1#%d#%d", si, k))
+			}
 		}
 	}
 	return append(u, "race-pass")
@@ -627,6 +704,36 @@ func c19Run(c *hx.Ctx, tier, unit string) {
 			}
 		}
 		rec(nil)
+		// "any number of times": every operation 64 times on one object, all results identical
+		for oi, op := range sub.ops {
+			c.Next()
+			c.Count("traces", 1)
+			o := sub.build()
+			var first string
+			for k := 0; k < 64; k++ {
+				var r string
+				pn := hx.Try(func() { r = op.run(o) })
+				c.Count("transitions", 1)
+				if pn != nil {
+					c.Outcome("panic")
+					c.Violation(fmt.Sprintf("C19 sequential %s: %s panics when repeated", sub.name, op.name), map[string]any{"repetition": k, "panic": pn.String()})
+					break
+				}
+				if k == 0 {
+					first = r
+					if r != refOf[oi] {
+						c.Outcome("result-differs")
+						c.Violation(fmt.Sprintf("C19 sequential %s: two fresh objects give different results for %s", sub.name, op.name), map[string]any{"result": r, "other": refOf[oi]})
+						break
+					}
+				} else if r != first {
+					c.Outcome("result-differs")
+					c.Violation(fmt.Sprintf("C19 sequential %s: repeated calls of %s on one object return different results", sub.name, op.name), map[string]any{"repetition": k, "result": r, "first_call_result": first})
+					break
+				}
+			}
+			c.Outcome("repetition-ok")
+		}
 	case "sched2x1", "sched2x2", "sched3x1":
 		first, _ := strconv.Atoi(parts[2])
 		n := len(sub.ops)
